@@ -191,6 +191,16 @@ def time_transforms(ck):
             return [], dict(config=cfg, inp=data_input('inp', pat), tinp=time_input('tinp', [90 + s, 100 + s, 120 + s]),
                             zinp=data_input('zinp', 'ppp', values=[Fr(1)] * 3))
         both('climatology_test', mk, f'climatology_test({pat!r})')
+        # a span that ends exactly at midnight, an observation later that day, and offsets that are not whole days (a change of time zone):
+        # what is special about midnight in the unshifted run is gone after the shift
+        day = 86400
+        for off in (6 * 3600, -3600, day // 2):
+            def mkd(s, off=off):
+                s = off if s else 0
+                cfg = [dict(tspan=(TS(day + s), TS(2 * day + s)), vspan=(Fr(2), Fr(4)), fspan=(Fr(1), Fr(5)))]
+                return [], dict(config=cfg, inp=data_input('inp', pat), tinp=time_input('tinp', [day + s, 2 * day + s, 2 * day + 3600 + s]),
+                                zinp=data_input('zinp', 'ppp', values=[Fr(1)] * 3))
+            both('climatology_test', mkd, f'climatology_test({pat!r}; span ending at midnight, shift {off} s)')
     for si, ei in ((None, None), (False, True)):
         def mk(s):
             cells = [El(X.add(('x', 'inp', i), X.num(s)), False) for i in range(2)]
